@@ -15,6 +15,7 @@ PROPERTY_MODULES.update({
     "C12": "contracts.C12_config",
     "C13": "contracts.C13_gradients",
     "C14": "contracts.C14_toys",
+    "C15": "contracts.C15_invariance",
     "C16": "contracts.C16_workspace_ops",
     "C17": "contracts.C17_patchset",
     "C18": "contracts.C18_roundtrip",
